@@ -205,6 +205,11 @@ def make_func(rng, name, shape=None, force=None):
             reg.emit(call(rng), "body")
         for _ in range(rng.range(0, 2)):
             reg.emit(filler(rng), "body")
+        if reg.length > 8:
+            # a loop's back edge: `jmp rel8` with a NEGATIVE displacement to some byte inside the function (not its first)
+            # - read without its sign it would point 256 bytes further, out of the function (seeded change C03-20)
+            d = rng.range(1, min(reg.length - 1, 100))
+            reg.emit(Insn("nop", bytes([0xEB, (256 - 2 - d) & 0xff])), "body")
     def epilog(reg, extra=0, term="ret"):
         # restores of mov-saved registers are ordinary body instructions
         for r, off in zip(saves, save_offs):
